@@ -9,6 +9,7 @@ MODULES = [
     'contracts.parallel',
     'contracts.cache',
     'contracts.chain',
+    'contracts.config',
 ]
 
 
